@@ -253,4 +253,167 @@ theorem tstr_spec (t : DateTime) (f : TField) (ht : GoodTime t) (h : fillable f 
   · exact ⟨pad_length 2 _ (by omega) (by omega), pad_all_digits _ _, parseNat_pad _ _⟩
   · exact ⟨pad_length 3 _ (by omega) (by omega), pad_all_digits _ _, parseNat_pad _ _⟩
 
+/-! ### Fixed-width templates: compile, format and match agree -/
+
+/-- tokens of the fixed-width fragment: literal characters that are neither regex syntax nor
+"special", and the temporal placeholders `get_filename` can fill -/
+def FixedTok : Tok → Prop
+  | .lit c => regexActive c = false ∧ special c = false
+  | .ph (.time _ f) => fillable f = true
+  | .ph (.user _) => False
+  | .star => False
+
+/-- the string a placeholder stands for -/
+def keyStr (ctx : Ctx) : Key → List Char
+  | .time isEnd f => tstr (if isEnd then ctx.e else ctx.s) f
+  | .user n => (ctx.fill.lookup n).getD []
+
+/-- the expected captures: every placeholder's string, at its first occurrence -/
+def capsOf (ctx : Ctx) : List Tok → List Key → Caps
+  | [], _ => []
+  | .ph k :: ts, seen =>
+    if seen.contains k then capsOf ctx ts seen else (k, keyStr ctx k) :: capsOf ctx ts (k :: seen)
+  | .lit _ :: ts, seen => capsOf ctx ts seen
+  | .star :: ts, seen => capsOf ctx ts seen
+
+theorem special_of_digit (c : Char) (h : isDigit c = true) : special c = false := by
+  cases hsp : special c with
+  | false => rfl
+  | true =>
+    exfalso
+    simp only [special, Bool.or_eq_true, decide_eq_true_eq] at hsp
+    rcases hsp with ((((((((h1 | h1) | h1) | h1) | h1) | h1) | h1) | h1) | h1) <;> subst h1 <;>
+      simp [isDigit] at h
+
+theorem compile_pieces_fixed (cfg : Cfg) (ctx : Ctx) (hs : GoodTime ctx.s) (he : GoodTime ctx.e) :
+    ∀ (tpl : List Tok) (seen : List Key), (∀ t ∈ tpl, FixedTok t) →
+      ∃ items ps, compile cfg tpl seen = .ok items ∧ pieces cfg ctx tpl = .ok ps ∧
+        DetAll items ps ∧ capsFrom items ps = capsOf ctx tpl seen ∧
+        (∀ c ∈ ps.flatten, special c = false) := by
+  intro tpl
+  induction tpl with
+  | nil =>
+    intro seen _
+    exact ⟨[], [], rfl, rfl, DetAll.nil, rfl, by simp⟩
+  | cons t ts ih =>
+    intro seen hfix
+    have hts : ∀ t ∈ ts, FixedTok t := fun t ht => hfix t (List.mem_cons_of_mem _ ht)
+    have ht := hfix t List.mem_cons_self
+    cases t with
+    | lit c =>
+      obtain ⟨hra, hsp⟩ := ht
+      obtain ⟨items, ps, h1, h2, h3, h4, h5⟩ := ih seen hts
+      refine ⟨(.char c, none) :: items, [c] :: ps, ?_, ?_, DetAll.cons (det_char c) h3, ?_, ?_⟩
+      · simp only [compile, compileTok, hra, h1, Bool.false_eq_true, ↓reduceIte]
+      · simp only [pieces, piece, h2]
+      · simp [capsFrom, capsOf, h4]
+      · intro x hx
+        simp only [List.flatten_cons, List.mem_append, List.mem_singleton] at hx
+        rcases hx with rfl | hx
+        · exact hsp
+        · exact h5 x hx
+    | star => exact absurd ht (by simp [FixedTok])
+    | ph k =>
+      cases k with
+      | user n => exact absurd ht (by simp [FixedTok])
+      | time isEnd f =>
+        simp only [FixedTok] at ht
+        have hgt : GoodTime (if isEnd then ctx.e else ctx.s) := by cases isEnd <;> simpa
+        obtain ⟨sl, sd, _⟩ := tstr_spec _ f hgt ht
+        have hdet := det_digits f.width _ sl sd
+        have hpiece : piece cfg ctx (.ph (.time isEnd f)) = .ok (tstr (if isEnd then ctx.e else ctx.s) f) := by
+          simp only [piece]; exact timePiece_eq _ _ ht
+        have hspec : ∀ c ∈ tstr (if isEnd then ctx.e else ctx.s) f, special c = false := by
+          intro c hc
+          exact special_of_digit c (by simpa [List.all_eq_true] using (List.all_eq_true.mp sd) c hc)
+        by_cases hseen : seen.contains (Key.time isEnd f) = true
+        · obtain ⟨items, ps, h1, h2, h3, h4, h5⟩ := ih seen hts
+          refine ⟨(.digits f.width, none) :: items, _ :: ps, ?_, ?_, DetAll.cons hdet h3, ?_, ?_⟩
+          · simp only [compile, compileTok, hseen, h1, ↓reduceIte]
+          · simp only [pieces, hpiece, h2]
+          · simp only [capsFrom, capsOf, hseen, h4, ↓reduceIte]
+          · intro x hx
+            simp only [List.flatten_cons, List.mem_append] at hx
+            rcases hx with hx | hx
+            · exact hspec x hx
+            · exact h5 x hx
+        · obtain ⟨items, ps, h1, h2, h3, h4, h5⟩ := ih (Key.time isEnd f :: seen) hts
+          refine ⟨(.digits f.width, some (Key.time isEnd f)) :: items, _ :: ps, ?_, ?_,
+            DetAll.cons hdet h3, ?_, ?_⟩
+          · simp only [compile, compileTok, hseen, h1, Bool.false_eq_true, ↓reduceIte]
+          · simp only [pieces, hpiece, h2]
+          · simp only [capsFrom, capsOf, hseen, h4, Bool.false_eq_true, ↓reduceIte, keyStr]
+          · intro x hx
+            simp only [List.flatten_cons, List.mem_append] at hx
+            rcases hx with hx | hx
+            · exact hspec x hx
+            · exact h5 x hx
+
+theorem lookup_capsOf (ctx : Ctx) :
+    ∀ (tpl : List Tok) (seen : List Key) (k : Key),
+      (capsOf ctx tpl seen).lookup k =
+        if Tok.ph k ∈ tpl ∧ k ∉ seen then some (keyStr ctx k) else none := by
+  intro tpl
+  induction tpl with
+  | nil => intro seen k; simp [capsOf]
+  | cons t ts ih =>
+    intro seen k
+    cases t with
+    | lit c => simp [capsOf, ih]
+    | star => simp [capsOf, ih]
+    | ph k' =>
+      simp only [capsOf]
+      by_cases hseen : seen.contains k' = true
+      · simp only [hseen, ↓reduceIte, ih, List.mem_cons, Tok.ph.injEq]
+        have hmem : k' ∈ seen := by simpa using hseen
+        by_cases hk : k = k'
+        · subst hk; simp [hmem]
+        · simp [hk]
+      · simp only [hseen, Bool.false_eq_true, ↓reduceIte, List.lookup_cons, ih, List.mem_cons,
+          Tok.ph.injEq]
+        have hmem : k' ∉ seen := by simpa using hseen
+        by_cases hk : k = k'
+        · subst hk; simp [hmem]
+        · have : (k == k') = false := by simpa using hk
+          simp [this, hk]
+
+theorem capsNumeric_capsOf (ctx : Ctx) (hs : GoodTime ctx.s) (he : GoodTime ctx.e) :
+    ∀ (tpl : List Tok) (seen : List Key), (∀ t ∈ tpl, FixedTok t) →
+      capsNumeric (capsOf ctx tpl seen) = true := by
+  intro tpl
+  induction tpl with
+  | nil => intro seen _; simp [capsOf, capsNumeric]
+  | cons t ts ih =>
+    intro seen hfix
+    have hts : ∀ t ∈ ts, FixedTok t := fun t ht => hfix t (List.mem_cons_of_mem _ ht)
+    have ht := hfix t List.mem_cons_self
+    cases t with
+    | lit c => simpa [capsOf] using ih seen hts
+    | star => simpa [capsOf] using ih seen hts
+    | ph k =>
+      cases k with
+      | user n => exact absurd ht (by simp [FixedTok])
+      | time isEnd f =>
+        simp only [FixedTok] at ht
+        simp only [capsOf]
+        split
+        · exact ih seen hts
+        · have hgt : GoodTime (if isEnd then ctx.e else ctx.s) := by cases isEnd <;> simpa
+          obtain ⟨_, _, sp⟩ := tstr_spec _ f hgt ht
+          have := ih (Key.time isEnd f :: seen) hts
+          simp only [capsNumeric, List.all_cons, keyStr, sp, Option.isSome_some, Bool.true_and] at this ⊢
+          exact this
+
+theorem fieldVal_capsOf (ctx : Ctx) (hs : GoodTime ctx.s) (he : GoodTime ctx.e) (tpl : List Tok)
+    (hfix : ∀ t ∈ tpl, FixedTok t) (isEnd : Bool) (f : TField) :
+    fieldVal (capsOf ctx tpl []) isEnd f =
+      if Tok.ph (.time isEnd f) ∈ tpl then some (tval (if isEnd then ctx.e else ctx.s) f) else none := by
+  unfold fieldVal
+  rw [lookup_capsOf]
+  by_cases hm : Tok.ph (Key.time isEnd f) ∈ tpl
+  · have hf : fillable f = true := by simpa [FixedTok] using hfix _ hm
+    have hgt : GoodTime (if isEnd then ctx.e else ctx.s) := by cases isEnd <;> simpa
+    simp [hm, keyStr, (tstr_spec _ f hgt hf).2.2]
+  · simp [hm]
+
 end Template
